@@ -14,8 +14,9 @@ static session_table *T;
 static const uint8_t *OWN;
 static e1_cfg pseudo;
 
-enum { TB_EMPTY, TB_SAME_SEQ, TB_OTHER_SEQ, TB_OTHER_GEN, TB_OTHER_MAPPER, TB_FULL, TB_N };
-static const char *TBNAME[] = {"empty", "same mapper+generation, same seq", "same mapper+generation, other seq", "same mapper, other generation", "other mapper, same generation", "full table without the session"};
+enum { TB_EMPTY, TB_SAME_SEQ, TB_OTHER_SEQ, TB_OTHER_GEN, TB_OTHER_MAPPER, TB_FULL, TB_HOLE_SAME_SEQ, TB_HOLE_OTHER_SEQ, TB_LAST_SLOT_OTHER_SEQ, TB_N };
+static const char *TBNAME[] = {"empty", "same mapper+generation, same seq", "same mapper+generation, other seq", "same mapper, other generation", "other mapper, same generation", "full table without the session",
+                               "session behind a freed slot, same seq", "session behind a freed slot, other seq", "session in the last slot of an otherwise full table, other seq"};
 #define GEN 0x0A0B
 #define SEQ 0x0011
 
@@ -26,6 +27,12 @@ static void table_shape(int shape) {
         case TB_OTHER_SEQ: session_table_add(T, vf_station[ST_M1], GEN, SEQ + 1); break;
         case TB_OTHER_GEN: session_table_add(T, vf_station[ST_M1], GEN + 1, SEQ + 1); break;
         case TB_OTHER_MAPPER: session_table_add(T, vf_station[ST_M2], GEN, SEQ + 1); break;
+        case TB_HOLE_SAME_SEQ: case TB_HOLE_OTHER_SEQ: {      /* earlier sessions came and went: the slot in front of ours is free again */
+            uint8_t m[6] = {0, 0xaa, 0xbb, 0xcc, 0xdd, 0x77};
+            session_table_add(T, m, GEN, SEQ); session_table_add(T, vf_station[ST_M1], GEN, shape == TB_HOLE_SAME_SEQ ? SEQ : SEQ + 1); session_table_remove(T, m, GEN); break; }
+        case TB_LAST_SLOT_OTHER_SEQ:
+            for (int i = 0; i < SESSION_TABLE_MAX_ENTRIES - 1; i++) { uint8_t m[6] = {0, 0xaa, 0xbb, 0xcc, 0xdd, (uint8_t)i}; session_table_add(T, m, (uint16_t)(GEN + (i & 1)), SEQ + 1); }
+            session_table_add(T, vf_station[ST_M1], GEN, SEQ + 1); break;
         case TB_FULL: for (int i = 0; i < SESSION_TABLE_MAX_ENTRIES; i++) { uint8_t m[6] = {0, 0xaa, 0xbb, 0xcc, 0xdd, (uint8_t)i}; session_table_add(T, m, (uint16_t)(GEN + (i & 1)), SEQ + 1); } break;
     }
 }
@@ -71,7 +78,7 @@ static void one_discover(size_t mtu, int count, int pos, int shape, int null_mac
     vf_outcome(vf_hash64(&ev, sizeof ev, (uint64_t)(pos >= 0) + 2u * (uint64_t)shape));
     if (A.verbose) printf("    Discover(count=%d, own address %s, table: %s) -> %s\n", count, pos >= 0 ? "listed" : "not listed", TBNAME[shape], evname(ev));
     if (null_mac) return;                       /* only memory safety is demanded without an own address */
-    int changed = (shape == TB_OTHER_SEQ);
+    int changed = (shape == TB_OTHER_SEQ || shape == TB_HOLE_OTHER_SEQ || shape == TB_LAST_SLOT_OTHER_SEQ);
     int ack_class = (ev == sess_discover_acking || ev == sess_discover_acking_chgd_xid);
     int noack_class = (ev == sess_discover_noack || ev == sess_discover_noack_chgd_xid);
     const char *where = pos == -2 ? "decoy-14-byte-stride" : pos == -3 ? "decoy-shifted" : pos < 0 ? "absent" : pos == 0 ? "first" : pos == count - 1 ? "last" : "inner";
